@@ -39,6 +39,11 @@ def directed_cases():
                              "fail_rule": {f"on_LTc_removed|{longkey!r}": 4, f"on_LTc_removed|{shortkey!r}": 1}}
             c["sseed"], c["session_opts"] = 0, {}
             out.append(c)
+            # the same with the client restarted right after the group's removal was deferred: the
+            # parent index is rebuilt from the caches when the queue is reloaded
+            c2 = copy.deepcopy(c)
+            c2["sessions"]["iters"][2]["restart"] = True
+            out.append(c2)
     # twin parents: the two parents of a membership hold the same local data (same attribute names
     # and values, e.g. a user and its private group); the membership's 'added' keeps failing while
     # both parents are modified, then removed together with it
@@ -75,7 +80,7 @@ def run(ctx):
     directed = directed_cases()
     # (the clock jumps by hours and days in a third of the histories: with a retention the purge
     #  passes then remove trashed children and parents for good)
-    cases = directed + cliprops.gen_cases(ctx, n, copts, lambda rng: {"p_fail": 0.55, "p_partial": 0.1, "clock": rng.random() < 0.34}, tweak=tweak)
+    cases = directed + cliprops.gen_cases(ctx, n, copts, lambda rng: {"p_fail": 0.55, "p_partial": 0.1, "clock": rng.random() < 0.34, "p_restart": rng.choice([0.0, 0.0, 0.25])}, tweak=tweak)
     res, failing = cliprops.run_and_eval(ctx, cases, "c09_case", "c09")
     violations, corr = [], []
     control_breaks = 0
